@@ -38,7 +38,9 @@ fn gen_scalar(rng: &mut Prng) -> VSpec {
     match rng.below(12) {
         0 => VSpec::Nil,
         1..=4 => VSpec::Int(*rng.pick(&[0i64, 1, -1, 2, 3, 4, 5, 7, 255, -255, 1 << 31, (1 << 53) - 1, 1 << 53, -(1 << 53), 9, 10, 100, i64::MAX, i64::MIN, i64::MAX - 1])),
-        5..=7 => real(*rng.pick(&[0.0f64, -0.0, 1.0, -1.0, 0.5, 2.0, 3.0, 2.5, 4.0, 5.0, 1e10, -1e10, 9007199254740992.0, 1.5, 255.0, 0.1, f64::INFINITY, f64::NEG_INFINITY, f64::NAN, 3.0000000000000004])),
+        5..=7 => real(*rng.pick(&[0.0f64, -0.0, 1.0, -1.0, 0.5, 2.0, 3.0, 2.5, 4.0, 5.0, 1e10, -1e10, 9007199254740992.0, 1.5, 255.0, 0.1, f64::INFINITY, f64::NEG_INFINITY, f64::NAN, 3.0000000000000004,
+            // distinct reals closer to each other than machine epsilon
+            0.3, 0.30000000000000004, 1.5e-16, 3e-16, 1.0000000000000002, -1.5e-16])),
         _ => VSpec::Str(rng.pick(&["", "a", "b", "ab", "ba", "abc", "abd", "héé", "key", "value", "🔥", "0", "1"]).to_string()),
     }
 }
@@ -182,6 +184,16 @@ impl Engine for LawsEngine {
             if let VSpec::Int(x) = &pool[i] {
                 let y = if rng.chance(1, 2) { x.wrapping_add(1) } else { x.wrapping_sub(1) };
                 pool.push(VSpec::Int(y));
+            }
+        }
+        for _ in 0..3 {
+            let i = rng.below(n);
+            if let VSpec::Real(b) = &pool[i] {
+                let f = f64::from_bits(*b);
+                if f.is_finite() {
+                    // the next representable real
+                    pool.push(VSpec::Real(if f >= 0.0 { b + 1 } else { b - 1 }));
+                }
             }
         }
         if rng.chance(1, 3) {
